@@ -804,7 +804,9 @@ class DirectoryRecord:
         is_duplicate = False
         if index != len(self.children) and self.children[index].file_ident == child.file_ident:
             if not self.children[index].is_associated_file() and not child.is_associated_file():
-                if not self.is_rr_moved_dir:
+                # (What is found in the relocation directory of an existing
+                # ISO is taken as it is; check_overflow is False then.)
+                if not self.is_rr_moved_dir or check_overflow:
                     if not allow_duplicate:
                         raise pycdlibexception.PyCdlibInvalidInput('Failed adding duplicate name to parent')
                     is_duplicate = True
@@ -830,7 +832,7 @@ class DirectoryRecord:
             # the PyCdlib object marks as such, whatever its name is) keep the
             # names they have in their real parents, so they may legitimately
             # collide.
-            in_rr_moved = self.is_rr_moved_dir
+            in_rr_moved = self.is_rr_moved_dir and child.rock_ridge.relocated_record()
             if check_overflow and not allow_duplicate and not in_rr_moved and rr_index > 0:
                 # Entries with an equal name sort before the insertion point.
                 rr = self.rr_children[rr_index - 1].rock_ridge
